@@ -32,7 +32,7 @@ Step(e) ==
   \/ /\ e.op = "reset" /\ e.cap = Cap
      /\ rpos' = 0 /\ wpos' = 0 /\ used' = 0
      /\ mem' = [c \in Cells |-> 0] /\ tags' = [c \in Cells |-> <<>>]
-     /\ produced' = 0 /\ consumed' = 0 /\ wwin' = <<>> /\ rwin' = <<>> /\ wstale' = <<>>
+     /\ produced' = 0 /\ consumed' = 0 /\ wwin' = <<>> /\ rwin' = <<>> /\ wstale' = <<>> /\ rstale' = <<>>
      /\ poisoned' = FALSE
   \/ /\ e.op = "acqw" /\ NoPanic(e) /\ AcqW
      /\ wwin' = <<e.start, e.len>> /\ e.wlen = e.len /\ StOk(e)
